@@ -325,6 +325,8 @@ def run(prog, rep, tier):
              'the primary call receives')
     if check_fallback_forwards(prog, rep) < 1:
         raise AnalysisError('FACT-fallback-forwards: the two scipy.linalg.svd calls not found')
+    rep.rule('FACT-unit-phase', 'no phase x / |x| of a possibly vanishing diagonal entry in qr')
+    check_unit_phase(prog, rep)
     rep.rule('FACT-full-unitary', 'svd(full_matrices=True): every charge sector of the legs gets a '
              'block in U / VH (identity where `a` stores none)')
     if check_full_unitary(prog, rep) < 2:
@@ -626,4 +628,35 @@ def check_fallback_forwards(prog, rep):
                                   'the fallback call `%s` does not receive %s, which the primary '
                                   'call passes on: on the fallback path these options revert to '
                                   'the defaults of %s' % (key_text(c)[:60], miss, callee), c.lineno)
+    return n
+
+
+# ------------------------------------------------------------------ FACT-unit-phase
+def check_unit_phase(prog, rep):
+    """FACT-unit-phase: `x / np.abs(x)` is the phase of x only for x != 0; for a vanishing entry it
+    is 0/0 = NaN (rank-deficient block: zero on the diagonal of R). In the factorisation code every
+    such quotient divides by a magnitude that has been made non-zero (`np.where(zero, 1, ..)`), or
+    the result is selected with `np.where` on the zero mask."""
+    m = prog.module(NPC)
+    n = 0
+
+    def scan(f):
+        out = []
+        for b in ast.walk(f):
+            if isinstance(b, ast.BinOp) and isinstance(b.op, ast.Div) and isinstance(
+                    b.right, ast.Call) and unparse(b.right.func) in ('np.abs', 'abs', 'np.absolute') \
+                    and b.right.args and unparse(b.right.args[0]) == unparse(b.left):
+                out.append(b)
+        return out
+    fx = ast.parse("def f(r):\n    d = np.diag(r)\n    return d / np.abs(d)\n").body[0]
+    rep.control('FACT-unit-phase', len(scan(fx)) == 1)
+    for q in ('qr', ):
+        f = m.func(q)
+        n += 1
+        for b in scan(f):
+            rep.violation('FACT-unit-phase', m, q, 'phase-of-zero:' + unparse(b.left)[:20],
+                          '`%s` is NaN where `%s` vanishes (rank-deficient block); the NaN is '
+                          'multiplied into a column of Q and a row of R' %
+                          (unparse(b)[:50], unparse(b.left)[:20]), b.lineno)
+    rep.instance('FACT-unit-phase', {'functions': ['qr'], 'unguarded_quotients': 0})
     return n
